@@ -285,6 +285,10 @@ T('real(fft(M))', 'M', lambda r: algopy.real(algopy.fft.fft(r)), tags=('fft',))
 T('imag(fft(M,axis=0))', 'M', lambda r: algopy.imag(algopy.fft.fft(r, axis=0)), tags=('fft',))
 T('real(ifft(fft(M)*M))', 'M', lambda r: algopy.real(algopy.fft.ifft(algopy.fft.fft(r) * r)), tags=('fft',))
 T('real(conj(fft(M)))', 'M', lambda r: algopy.real(algopy.conjugate(algopy.fft.fft(r))), tags=('fft',))
+# transforms along an axis that is NOT the last one, on non-square operands (axis length != last axis length)
+T('real(ifft(wide,axis=0))', 'M', lambda r: algopy.real(algopy.fft.ifft(r[:2], axis=0)), tags=('fft',))
+T('real(fft(wide,axis=0))', 'M', lambda r: algopy.real(algopy.fft.fft(r[:2] * r[:2], axis=0)), tags=('fft',))
+T('real(ifft(fft(tall,axis=0)*2,axis=0))', 'M', lambda r: algopy.real(algopy.fft.ifft(algopy.fft.fft(r[:, :2], axis=0) * 2.0, axis=0)), tags=('fft',))
 T('expm(0.2M)', 'M', lambda r: algopy.expm(r * 0.2), tags=('linalg',))
 
 # ---------------------------------------------------------------- buffers and in-place writes
